@@ -85,6 +85,7 @@ def superOf : String → Option String
   | "NotImplementedError" => some "RuntimeError"
   | "RuntimeError" => some "Exception"
   | "LibSubError" => some "LibError"
+  | "BusyError" => some "LibError"
   | "LibError" => some "Exception"
   | "Exception" => some "BaseException"
   | _ => none
@@ -207,6 +208,10 @@ def libTask : String → Option TaskDef
       | some xs => sumInts xs
       | none => .unk
   | "ev.raiser" => some <| mkTask [p "kind", p "tag"] fun a => raiserE (a "kind") (a "tag")
+  | "ev.busy" => some <| mkTask [p "tag"] fun a =>
+      match fmtS (a "tag") with
+      | some t => .err ⟨"BusyError", "B-" ++ t⟩
+      | none => .unk
   | "ev.maybe_fail" => some <| mkTask [p "x", p "bad"] fun a =>
       match a "x", pyEq (a "x") (a "bad") with
       | .int z, some true => .err ⟨"ValueError", "bad-" ++ toString z⟩
